@@ -83,15 +83,23 @@ type ErrorListener struct {
 	*antlr.DefaultErrorListener
 	Error error
 	Data  string
+	count int
 }
+
+// maxSyntaxErrors bounds how many syntax errors are recorded; garbage input
+// produces one error per character and the rest add nothing but cost.
+const maxSyntaxErrors = 16
 
 // SyntaxError is called by ANTLR when a syntax error occurs.
 func (l *ErrorListener) SyntaxError(_ antlr.Recognizer, _ any, line, column int, msg string, e antlr.RecognitionException) {
+	l.count++
 	if l.Error == nil {
 		l.Error = fmt.Errorf("line %d:%d %s >> text: %q", line, column, msg, l.Data)
 		return
 	}
-	l.Error = fmt.Errorf("%w\nline %d:%d %s >> text: %q", l.Error, line, column, msg, l.Data)
+	if l.count <= maxSyntaxErrors {
+		l.Error = fmt.Errorf("%w\nline %d:%d %s", l.Error, line, column, msg)
+	}
 }
 
 // ParseTreeListener walks the parse tree and builds the key-value map.
